@@ -266,3 +266,44 @@ def fnptr_targets(prog, body, site):
                 return None
         return out or None
     return reified(body, f["place"]["l"])
+
+
+def family_bodies(prog, root, depth=2):
+    """`root`, its closures and the workspace functions they call (up to `depth` levels): [(body, anchor block in root or None for root
+    itself, [(body_i, call_i), ..] the calls that lead from root down to it)].  The anchor of a closure is the block of root that hands it
+    to something (the adapter or the function that will run it); of a helper, the block of its call."""
+    out = [(root, None, [])]
+    seen = {root.npath}
+
+    def scan(body, anchor_of, chain, d):
+        if d <= 0:
+            return
+        for c in body.calls():
+            a = anchor_of(c)
+            cb = prog.body(c.resolved or c.callee or "")
+            if cb is not None and cb.crate.startswith("pasfmt") and cb.kind != "Closure" and cb.npath not in seen:
+                seen.add(cb.npath)
+                out.append((cb, a, chain + [(body, c)]))
+                scan(cb, lambda _c, a=a: a, chain + [(body, c)], d - 1)
+            for arg in c.args:
+                if arg["k"] in ("copy", "move") and not arg["place"]["p"]:
+                    clos = body.locals[arg["place"]["l"]].get("closure")
+                    k = prog.body(norm(clos)) if clos else None
+                    if k is not None and k.npath not in seen:
+                        seen.add(k.npath)
+                        out.append((k, a, chain + [(body, c)]))
+                        scan(k, lambda _c, a=a: a, chain + [(body, c)], d - 1)
+    scan(root, lambda c: c.bb, [], depth)
+    return out
+
+
+def family_calls(prog, root, pred, depth=2):
+    """Calls satisfying `pred(call)` made by `root`, by its closures, or by workspace functions they call (up to `depth` levels):
+    [(anchor block in root, [(body, call), ..] from the root level down to the call itself)].  Lets ORDER rules written on root's CFG see
+    through `iter.filter_map(|x| ..)` and helper extraction: what a closure or helper does happens `at` its anchor."""
+    out = []
+    for body, anchor, chain in family_bodies(prog, root, depth):
+        for c in body.calls():
+            if pred(c):
+                out.append((c.bb if anchor is None else anchor, chain + [(body, c)]))
+    return out
